@@ -82,8 +82,9 @@ class ScriptedRNG(np.random.Generator):
     the script it takes rank 0.  trace_ranks records (rank taken, number of options) per decision, prob the
     path probability.  uniform/random return the scripted quantile q, standard_normal Phi^-1(q)."""
 
-    def __init__(self, script=(), quantiles=None, default_q=0.5, seed=0):
+    def __init__(self, script=(), quantiles=None, default_q=0.5, seed=0, wrap=False):
         super().__init__(np.random.PCG64(seed))
+        self.wrap = wrap  # ranks are taken modulo the number of options (random but reproducible decisions)
         self.script = list(script)
         self.pos = 0
         self.trace_ranks = []
@@ -113,6 +114,8 @@ class ScriptedRNG(np.random.Generator):
         self.removed_mass += sum(x for x in pv if x <= TINY)
         k = self.script[self.pos] if self.pos < len(self.script) else 0
         self.pos += 1
+        if self.wrap:
+            k = k % len(opts)
         if k >= len(opts):
             raise ScriptExhausted(f"rank {k} of {len(opts)}")
         self.trace_ranks.append((k, len(opts)))
